@@ -27,6 +27,7 @@ CLASSES = [
     "abcxyzABC019_ ~", "'", '"', "\\", "\x00\x01\x07\x08\t\n\x0b\x0c\r\x1b\x1f", "\x7f", "\x80\x85\xa0\xad\xff\xe9\xdf\xb5",
     "  　  ", "  ", "​‎⁠﻿­؜", "\U000f0000", "͸԰￿\U0001fffe",
     "́̈⃐", "中Ａあ가", "\U0001f600\U00010000\U0010ffff\U000e0001\U0001d11e", "٠²Ⅷ",
+    "\x7f\x80\xff\u0100\u07ff\u0800\ud7ff\ue000\ufffd\ufffe\uffff\U00010000\U0001ffff\U000f0000\U0010fffe\U0010ffff",
 ]
 
 
@@ -54,12 +55,13 @@ class C16(Property):
         yield {'k': 'bytes_many', 'items': ['%02x' % a for a in range(256)]}
         for a in range(256):
             yield {'k': 'bytes_many', 'items': ['%02x%02x' % (a, b) for b in range(256)]}
-        if ctx.tier == 'thorough':
-            # every BMP code point (no surrogates) alone and in a quote context
-            for base in range(0, 0x10000, 64):
-                chars = [chr(c) for c in range(base, base + 64) if not 0xD800 <= c <= 0xDFFF]
-                if chars:
-                    yield {'k': 'str_many', 'items': chars + [c + "'" for c in chars] + ["'\"" + c for c in chars]}
+        # every BMP code point (no surrogates) alone (quick) and also in a quote context (thorough); the last code points of
+        # the other planes and the neighbourhood of every plane border
+        for base in range(0, 0x10000, 64):
+            chars = [chr(c) for c in range(base, base + 64) if not 0xD800 <= c <= 0xDFFF]
+            if chars:
+                yield {'k': 'str_many', 'items': chars + ([c + "'" for c in chars] + ["'\"" + c for c in chars] if ctx.tier == 'thorough' else [])}
+        yield {'k': 'str_many', 'items': [chr(p * 0x10000 + d) for p in range(1, 17) for d in (0, 1, 0xfffd, 0xfffe, 0xffff)]}
         for s in ['', "'", '"', "'\"", 'a\'b"c', '\\', '\n', 'é', '\x7f', '\xa0', '\xad', ' ', '\U0001f600', '\U0010ffff', '', '͸']:
             yield {'k': 'str', 's': s, 'mode': 'repr'}
 
